@@ -61,6 +61,16 @@ void h_inversion(void)
       tell_e[i] = ec_tell(&enc); frac_e[i] = ec_tell_frac(&enc); rng_e[i] = enc.rng;
       __CPROVER_assert(i == 0 || frac_e[i] >= frac_e[i-1], "fractional bit count never decreases");
    }
+#ifdef VERIF_PATCH
+   /* initial-bit patching: the first VERIF_PATCH operations are single bits of probability 1/2 (the documented
+      requirement: "at least _nbits bits must have already been encoded using probabilities that are an exact power of
+      two"); they are overwritten by the bits of pv, most significant first */
+   {  unsigned pv = nondet_uint(); __CPROVER_assume(pv < (1u << VERIF_PATCH));
+      for (i = 0; i < VERIF_PATCH; i++) __CPROVER_assume(ops[i].kind == 0 && ops[i].a == 1);
+      ec_enc_patch_initial_bits(&enc, pv, VERIF_PATCH);
+      for (i = 0; i < VERIF_PATCH; i++) ops[i].v = (pv >> (VERIF_PATCH - 1 - i)) & 1;   /* what the decoder must now see */
+   }
+#endif
    tell_before_done = ec_tell(&enc); err_before_done = ec_get_error(&enc);
    ec_enc_done(&enc);
    __CPROVER_assert((tell_before_done <= (int)(8 * storage) && !err_before_done) ==> !ec_get_error(&enc), "finishing cannot fail when the reported bit usage is within the buffer");
